@@ -3,12 +3,15 @@ SPECIFICATION Spec
 CONSTANTS
   CodeUnanchored = FALSE
   CodeNoRange = FALSE
-  FormatIds = {1,2,3,4,5,6,7,8,9,10,11,12,13,14,15}
+  FormatIds = {1,2,3,4,5,6,7,8,9,10,11,12,13,14,15,16,17,18}
   Zones = {"UTC", "Asia/Kolkata", "America/Los_Angeles", "America/New_York"}
   PathIds = {1,2,3,4,5,6,7,8}
   CandZones = {"UTC", "America/New_York"}
   CandPathIds = {2,6}
   CandInstIds = {1,7}
+  HistZones = {"America/New_York"}
+  HistPathIds = {2}
+  HistInstIds = {1,2,6}
 INVARIANTS TableConsistent IdealRoundTrip IdealOnlyProducible
-INVARIANT EmitCases
+INVARIANTS EmitCases EmitHistories
 CHECK_DEADLOCK FALSE
